@@ -102,12 +102,23 @@ void LabelHandle(tStrComp const* pName, LargeWord Value, Boolean ForceGlobal) {
     /* structure element ? */
 
     if (pInnermostNamedStruct) {
+        PStructStack pRun;
+        LargeWord    Offset = Value;
+
         pLabelElement = CreateStructElem(pName);
         if (!pLabelElement) {
             return;
         }
 
-        pLabelElement->Offset = Value;
+        /* Value is relative to the innermost struct, which may be unnamed.  The element
+           becomes part of the innermost named struct: add up the offsets of all unnamed
+           structs in between. */
+
+        for (pRun = StructStack; pRun && pRun != pInnermostNamedStruct;
+             pRun = pRun->Next) {
+            Offset += pRun->SaveCurrPC;
+        }
+        pLabelElement->Offset = Offset;
         if (AddStructElem(pInnermostNamedStruct->StructRec, pLabelElement)) {
             AddStructSymbol(pLabelElement->pElemName, Value);
         }
@@ -145,7 +156,7 @@ void LabelHandle(tStrComp const* pName, LargeWord Value, Boolean ForceGlobal) {
 void LabelModify(LargeWord OldValue, LargeWord NewValue) {
     if (OldValue == LabelValue) {
         if (pLabelElement) {
-            pLabelElement->Offset = NewValue;
+            pLabelElement->Offset += NewValue - OldValue;
         }
         if (pLabelEntry) {
             ChangeSymbol(pLabelEntry, NewValue);
